@@ -47,9 +47,14 @@ class FakeS3:
         data = self.objects[key]
 
         class _Body:
-            # the parts of botocore's StreamingBody a reader of an object may use
+            # the parts of botocore's StreamingBody a reader of an object may use (a stream: what was read is gone)
+            _pos = 0
+
             def read(self_inner, amt=None):
-                return data if amt is None else data[:amt]
+                start = self_inner._pos
+                end = len(data) if amt is None else min(len(data), start + amt)
+                self_inner._pos = end
+                return data[start:end]
 
             def iter_lines(self_inner, chunk_size=1024, keepends=False):
                 return iter(data.splitlines(keepends))
@@ -132,6 +137,10 @@ def impl_collection(texts, allow, strict, via='strings', keys=None, page_size=2,
                 keys = keys or [f'prefix/k{i:03d}{["", "+a", "%25", "%2B b", " c", "é", ".rev1.2", "-T17.00.00"][i % 8]}.mos.xml' for i in range(len(texts))]
                 objs = {k: doc_bytes(t) for k, t in zip(keys, texts)}
                 objs['prefix/ignored.txt'] = b'not a mos file'
+                # attachments that sort between the messages: with the small page size some listing page holds none of the messages
+                first_key = sorted(k_ for k_ in objs if k_.endswith('.mos.xml'))[0]
+                for j_ in range(2 * page_size + 1):
+                    objs[f'{first_key}~attachment{j_}.json'] = b'{}'
                 pages = None
                 if listing == 'supplied':
                     # the listing in the order the keys were supplied (a store is not obliged to list in key order)
@@ -316,6 +325,12 @@ def run_c09(tier, seed):
     for via in ('strings', 'files', 's3'):
         for strict in (False, True):
             jobs.append(('declared ISO-8859-1, non-ASCII text', acc, False, strict, via))
+    pc = 'RO%3B2021%d {0}'
+    pct = [TJ.to_text(B.ro_doc([B.story('A', [B.item('a1')])], message_id='1', ro_id=pc)), TJ.to_text(B.story_insert('nowhere', [B.story('N')], message_id='2', ro_id=pc)),
+           TJ.to_text(B.story_append([B.story('M')], message_id='3', ro_id=pc)), TJ.to_text(B.ro_delete(message_id='4', ro_id=pc)), TJ.to_text(B.ready_to_air(message_id='5', ro_id=pc))]
+    for strict in (False, True):
+        for via in ('strings', 's3'):
+            jobs.append(('running-order ID with percent signs and braces', pct, False, strict, via))
     # collections of exactly 63, 64, 65, 127, 128, 129 messages after the roCreate (batch sizes a loop might work in)
     for nmsg in (63, 64, 65, 127, 128, 129):
         docs_n = [TJ.to_text(B.ro_doc([B.story('A')], message_id='1'))]
@@ -459,6 +474,10 @@ def run_c10(tier, seed):
     for name, trees in scripted:
         mids = [int(TJ.child_text(t, 'messageID')) for t in trees]
         hists.append({'seed': name, 'docs': [TJ.to_text(t) for t in trees], 'ids': mids, 'steps': []})
+    two = [B.ro_doc([X('A'), X('B'), X('C')], message_id='5'), B.story_delete(['C'], message_id='10'), B.story_append([X('C')], message_id='100'),
+           B.story_delete(['B'], message_id='1000'), B.story_append([X('B')], message_id='9')]
+    two_t = [TJ.to_text(t).replace('<ncsID>ncs.test</ncsID>', '<ncsID>%s</ncsID>' % ['ncs.primary', 'ncs.backup', 'NCS.A', 'ncs.primary', 'ncs.backup'][k], 1) for k, t in enumerate(two)]
+    hists.append({'seed': 'messages of two senders (different ncsID / mosID)', 'docs': two_t, 'ids': [5, 10, 100, 1000, 9], 'steps': []})
     for hi, h in enumerate(hists):
         docs = h['docs']
         if hi % 2 and not isinstance(h['seed'], str):
@@ -770,6 +789,22 @@ def completed_collections_check(oc, pid):
                 oc.failing.append({'kind': 'collection-stages', 'docs': tied, 'strict': strict, 'label': f'roDelete and a later message share a message ID via {via} strict={strict}',
                                    'spec': 'the roDelete completes the running order and the message after it is refused (MosCompletedMergeError / one warning), whatever their message IDs',
                                    'impl': {'err': o['err'], 'run_err': run.get('err'), 'warns': run.get('warns'), 'stories': ids_after}})
+    # one roDelete OBJECT completes every running order it is added to
+    from . import impl as _impl
+    rd_obj = _impl.load(TJ.to_text(B.ro_delete(message_id='9')))
+    for via_ in ('add', 'merge'):
+        ros = [_impl.load(TJ.to_text(B.ro_doc([B.story('A', [B.item('a1')])], message_id='1'))) for _ in range(3)]
+        states = []
+        for r_ in ros:
+            o_ = _impl.add(r_, rd_obj, via=via_)
+            states.append((o_['err'], bool(r_.completed), str(r_).count('<mosromgrmeta>')))
+        oc.evaluations += 1
+        oc.in_domain += 1
+        oc.count('rodelete-object-reused')
+        if states != [(None, True, 1)] * 3:
+            oc.failing.append({'kind': 'collection-stages', 'docs': [TJ.to_text(B.ro_delete(message_id='9'))], 'strict': False, 'label': f'one roDelete object added to three running orders ({via_})',
+                               'spec': 'merging a roDelete marks the running order completed and records it - for every running order the message object is added to',
+                               'impl': states})
     # a collection that has completed, merged again: every message is now late
     from mosromgr.moscollection import MosCollection
     from . import impl
@@ -849,6 +884,25 @@ def reuse_and_remerge_check(oc, pid):
             if with_late and not strict and fresh['warns'].count('MosMergeNonStrictWarning') != 1 + 3:
                 oc.failing.append({'kind': 'collection-stages', 'docs': use, 'strict': strict, 'label': 'one failing and three late messages, non-strict',
                                    'spec': 'one MosMergeNonStrictWarning per message that could not be merged (1 failing + 3 after the roDelete; the message that only warns is none)', 'impl': fresh['warns']})
+    # the same through S3: two objects read from one key, two collections built from the same keys (the first kept alive)
+    from mosromgr.mostypes import MosFile
+    objs_ = {f'pfx/{i:03d}.mos.xml': t.encode('utf-8') for i, t in enumerate(docs[:6])}
+    install_fake_s3(FakeS3(objs_, page_size=3))
+    with warnings.catch_warnings():
+        warnings.simplefilter('ignore')
+        a_, b_ = MosFile.from_s3(bucket_name='b', mos_file_key='pfx/000.mos.xml'), MosFile.from_s3(bucket_name='b', mos_file_key='pfx/000.mos.xml')
+        s1 = MosCollection.from_s3(bucket_name='b', prefix='pfx/')
+        r1 = run(s1, False)
+        s2 = MosCollection.from_s3(bucket_name='b', prefix='pfx/')
+        r2 = run(s2, False)
+    oc.evaluations += 1
+    oc.in_domain += 1
+    oc.count('s3-twice')
+    shared = a_.xml is b_.xml or bool(set(map(id, a_.xml.iter())) & set(map(id, b_.xml.iter()))) or bool(set(map(id, s1.ro.xml.iter())) & set(map(id, s2.ro.xml.iter())))
+    if shared or r1 != r2:
+        oc.failing.append({'kind': 'collection-stages', 'docs': docs[:6], 'strict': False, 'label': 'the same S3 keys read twice (two objects, two collections)',
+                           'spec': 'objects and collections built twice from the same S3 keys are independent and merge to the same result',
+                           'impl': {'shared_elements': shared, 'first': {k: r1[k] for k in ('err', 'warns', 'completed', 'records')}, 'second': {k: r2[k] for k in ('err', 'warns', 'completed', 'records')}}})
     # merge() once more on a collection that has completed
     for strict in (False, True):
         with warnings.catch_warnings():
@@ -905,6 +959,10 @@ def c11_lists(tier):
                     roid_variants.append(('last-padded', ['RO1'] * (n - 1) + ['RO1 ']))     # IDs are opaque: 'RO1 ' is not 'RO1'
                     roid_variants.append(('first-newline', ['RO1\n'] + ['RO1'] * (n - 1)))
                     roid_variants.append(('case-differs', ['RO1'] * (n - 1) + ['ro1']))
+                if n >= 1:
+                    # IDs that mean something to %-formatting and str.format: opaque strings like any other
+                    roid_variants.append(('percent', ['NEWS%20AT%20TEN'] * n))
+                    roid_variants.append(('percent-s', ['A%sB {0}'] * n))
                     roid_variants.append(('last-blank', ['RO1'] * (n - 1) + [None]))        # an empty <roID/> is an ID of its own
                     roid_variants.append(('first-blank', [None] + ['RO1'] * (n - 1)))
                     roid_variants.append(('all-blank', [None] * n))
